@@ -107,12 +107,20 @@ def explore(ctx):
                   'passes': [{'key': 1, 'ops': [('dup', rnd.randint(0, 1)) for _ in range(rnd.randint(9, 14))], 'aos': 0, 'maxt': None, 'newfix': None}],
                   'cfg': {'N': rnd.choice([1, 2, 3]), 'giveup': rnd.choice([2, 3]), 'nogiveup': False, 'also': 3, 'maximp': None, 'skipn': None, 'maxcrash': 10, 'no_cache': True},
                   'sched': [rnd.randint(0, 7) for _ in range(30)]}
+        if it % 12 == 5:
+            # a test that shrinks the candidate in its own directory before accepting it: what is committed is the shrunk
+            # file, and the limit is about what is committed (oracle only: the model's tests do not write)
+            sc['truncate'] = rnd.randint(0, 2)
+            sc['cfg']['maximp'] = rnd.choice([1, 2, 3])
         o = driver.run_scenario(sc, ctx.tmp)
         ctx.evaluations += 1
         if o.diverged:
             ctx.count('diverged')
             continue
         cut = oracle(ctx, sc, o)
+        if sc.get('truncate') is not None:
+            ctx.count('test-shrinks-its-candidate')
+            continue
         each.append((driver.coq_scenario(sc, o.perm), o.out, sc))
         ctx.count(f'maximp={sc["cfg"]["maximp"]}:skipn={sc["cfg"]["skipn"]}:gate={"y" if sc.get("start_with_key") else "n"}')
         if cut:
